@@ -10,6 +10,7 @@ import (
 	"encoding/hex"
 	"encoding/json"
 	"fmt"
+	"math/big"
 	"math/rand"
 	"os"
 	"path/filepath"
@@ -27,9 +28,9 @@ import (
 )
 
 type secretStats struct {
-	Ops, Scenarios, Secrets, Haystacks, Searches, DealPairs, WrongPasswords, RoundPairs, NoncesSeen, SealedValues, RotatedRounds, LookAlikeRounds, VerifyCommands int
-	OutcomeHist                                                                                                                                                   map[string]int
-	Monitors, Notes, Samples                                                                                                                                      []string
+	Ops, Scenarios, Secrets, Haystacks, Searches, DealPairs, WrongPasswords, RoundPairs, NoncesSeen, SealedValues, RotatedRounds, LookAlikeRounds, VerifyCommands, FaultyAnswers int
+	OutcomeHist                                                                                                                                                                  map[string]int
+	Monitors, Notes, Samples                                                                                                                                                     []string
 }
 
 type secretRun struct {
@@ -65,6 +66,14 @@ func encodings(raw []byte) map[string][]byte {
 	}
 	out["raw-reversed"] = rev
 	out["hex-reversed"] = []byte(hex.EncodeToString(rev))
+	// a number printed as a number: leading zero bytes are not printed (%x / String() of a big integer), or it is decimal
+	if len(raw) >= 24 {
+		out["hex-inner"] = []byte(hex.EncodeToString(raw[4:]))
+		out["HEX-inner"] = []byte(strings.ToUpper(hex.EncodeToString(raw[4:])))
+		out["hex-reversed-inner"] = []byte(hex.EncodeToString(rev[4:]))
+		out["decimal"] = []byte(new(big.Int).SetBytes(raw).String())
+		out["decimal-reversed"] = []byte(new(big.Int).SetBytes(rev).String())
+	}
 	out["base64-reversed"] = []byte(base64.StdEncoding.EncodeToString(rev))
 	return out
 }
@@ -237,6 +246,51 @@ func (r *secretRun) scenario(outDir string, n, t int) {
 	for _, m := range board {
 		bz, _ := json.Marshal(m)
 		r.scan(fmt.Sprintf("%s board message %d (%s)", tag, m.Offset, m.Event), bz, secrets)
+	}
+	// (a') what a machine answers to a faulty operation leaves it too ("all operation types including error results"):
+	// a machine with a participant's mnemonic is fed mutated variants of every operation that participant received,
+	// then the genuine one; every answer (result file or refusal text) is searched like the genuine results
+	{
+		vs := []*vnode{c.nodes[r.rng.Intn(n-1)]}
+		lim := 25
+		if r.tier == "thorough" {
+			vs, lim = c.nodes[:n-1], 1<<30
+		}
+		types6 := []string{"state_dkg_commits_await_confirmations", "state_dkg_deals_await_confirmations", "state_dkg_responses_await_confirmations",
+			"state_dkg_master_key_await_confirmations", "state_signing_await_partial_signs", "reinit_dkg"}
+		for _, v := range vs {
+			clone, err := newMachine(filepath.Join(dir, "faulty-"+v.name), "right-password", testMnemonics[v.idx%len(testMnemonics)])
+			if err != nil {
+				r.mon("harness: clone: " + err.Error())
+				continue
+			}
+			if !clone.VerifSecKey().Equal(v.air.VerifSecKey()) {
+				r.mon("harness: the clone of " + v.name + " has another long-term key")
+				clone.VerifCloseDB()
+				continue
+			}
+			ar := &airRun{st: &airStats{MutationHist: map[string]int{}, OutcomeHist: map[string]int{}}, rng: r.rng, tier: r.tier}
+			for _, op := range v.coldLog {
+				muts := ar.operationMutations(op, types6)
+				r.rng.Shuffle(len(muts), func(i, j int) { muts[i], muts[j] = muts[j], muts[i] })
+				for i, mu := range muts {
+					if i >= lim && !strings.Contains(mu.name, "sibling-field") {
+						continue
+					}
+					o := tryOperation(clone, mu.op, true)
+					r.st.FaultyAnswers++
+					r.st.OutcomeHist["faulty "+string(op.Type)+"/"+o.kind]++
+					hay := []byte(o.err)
+					if o.result != nil {
+						bz, _ := json.Marshal(o.result)
+						hay = append(append(hay, '\n'), bz...)
+					}
+					r.scan(fmt.Sprintf("%s the answer of %s's machine (%s) to a %s operation mutated by %s", tag, v.name, o.kind, op.Type, mutClass(mu.name)), hay, secrets)
+				}
+				tryOperation(clone, op, true)
+			}
+			clone.VerifCloseDB()
+		}
 	}
 	// (b) a deal opens with its addressee's key only
 	suite := bls12381.NewBLS12381Suite(nil)
